@@ -271,3 +271,33 @@ from contracts.shared import reregister as _rr_static
 from contracts import c19 as _c19_static
 _rr_static('C07', 'C19', 'C19.no_stateful_local_statics', 'C07.lemma.no_state_between_calls', replay=None)
 from contracts import c04 as _c04_c07  # noqa: sector contracts (spectrum == spectrum of the mass matrices) registered under C07 there
+
+# m_SUSY of the leading-log two-loop terms: the scale every logarithm is normalised to must be a positive mass for parameters of either sign -- a negative value passes the
+# units contract (it is a mass) but makes every logarithm NaN
+@obligation('C07.callee.log_scale.m_susy', fns=[('src/MSSMNoFV/gm2_2loop.cpp', 'log_scale')])
+def _(ctx):
+    """ensures for ALL M1, M2, mu != 0 (either sign) and me2(1,1), ml2(1,1) > 0: log_scale(model) > 0, log_scale <= each of |M1|, |M2|, |mu|, sqrt(me2(1,1)), sqrt(ml2(1,1)) and
+    equals one of them (m_SUSY = the minimum of the special masses, p.37 of arXiv:1311.1775)"""
+    M1, M2, mu, me2, ml2 = ctx.reals('MassB MassWB Mu me2_11 ml2_11')
+    pre = [M1 != 0, M2 != 0, mu != 0, me2 > 0, ml2 > 0]
+    it = Interp(ctx.w, mode='sym', assumptions=pre)
+    m = it.new_object('MSSMNoFV_onshell')
+    it.stubs.update({'::get_MassB': lambda i, a, t: M1, '::get_MassWB': lambda i, a, t: M2, '::get_Mu': lambda i, a, t: mu,
+                     '::get_me2': lambda i, a, t: me2, '::get_ml2': lambda i, a, t: ml2})
+    ps = it.run_paths(lambda: it.call('log_scale', [m], file='src/MSSMNoFV/gm2_2loop.cpp'))
+    ctx.merge_rules(it)
+    az = lambda t: _z3.If(t >= 0, t, -t)
+    for k, (s, r, e) in enumerate(ps):
+        if e is not None or r is None:
+            ctx.record('path%d' % k, FAILED, 'B', 0, 'no value: %s' % (e,))
+            continue
+        r = z3.simplify(r) if False else r
+        from gm2v.values import z3real as _zr
+        rr = _zr(r)
+        sq_e, sq_l = it.uf('sqrt', _z3.simplify(me2)), it.uf('sqrt', _z3.simplify(ml2))
+        ax = pre + list(s.pc) + list(s.axioms) + [sq_e > 0, sq_e * sq_e == me2, sq_l > 0, sq_l * sq_l == ml2]
+        cands = [az(M1), az(M2), az(mu), sq_e, sq_l]
+        ctx.prove('path%d.positive_minimum' % k, ax, _z3.And(rr > 0, *([rr <= c for c in cands] + [_z3.Or(*[rr == c for c in cands])])), check_vacuity=False,
+                  pins=[{'MassB': 300, 'MassWB': -500, 'Mu': -600, 'me2_11': 250000, 'ml2_11': 160000}, {'MassB': -100, 'MassWB': 500, 'Mu': 600, 'me2_11': 250000, 'ml2_11': 160000}])
+        ctx.sides('path%d' % k, s, pre)
+    ctx.record('paths', PROVED if ps else ERROR, 'B', 0, '%d path(s)' % len(ps))
